@@ -727,17 +727,17 @@ impl Interface {
         if !self.inner.slaac.rs_required(self.inner.now) {
             return;
         }
-        // Without a link-local address there is nothing to solicit from.
-        let Some(src_addr) = self.inner.link_local_ipv6_address() else {
-            return;
-        };
+        // Without a link-local address the solicitation is sent from the unspecified
+        // address and carries no source link-layer address option (RFC 4861 § 4.1).
+        let link_local = self.inner.link_local_ipv6_address();
+        let src_addr = link_local.unwrap_or(Ipv6Address::UNSPECIFIED);
         let rs_repr = Icmpv6Repr::Ndisc(NdiscRepr::RouterSolicit {
             // A medium without link-layer addresses has no source link-layer address option.
             lladdr: match self.inner.caps.medium {
                 #[cfg(feature = "medium-ip")]
                 Medium::Ip => None,
                 #[allow(unreachable_patterns)]
-                _ => Some(self.inner.hardware_addr.into()),
+                _ => link_local.map(|_| self.inner.hardware_addr.into()),
             },
         });
         let ipv6_repr = Ipv6Repr {
